@@ -216,6 +216,9 @@ def instantiate_class_and_update_cache(symbolic_cls: Type, original_new: Callabl
             # a __new__ that hands back an object of another type did not construct an instance of this class (Python
             # does not run __init__ on it either): nothing to register.
             return instance
+        # a factory __new__ may hand back an instance of a subclass: it is an instance of THAT class (Python runs that
+        # class's __init__ on it), and is filed there, where a variable of the subclass looks as well.
+        symbolic_cls = type(instance)
     index = index_class_cache(symbolic_cls)
     if index:
         update_cls_args(symbolic_cls)
